@@ -369,3 +369,10 @@ def run(cx):
             cx.ob('TABLE', 'create_cylinder:outward', layout and not inward,
                   'both triangles of a quad have outward normals (sign of the 2x2 determinant of their corner offsets on the tangent/axis lattice)', where=b.file,
                   found=f'inward-facing: {inward}')
+
+
+def run_thorough(cx):
+    """thorough tier: the generic evaluators this property relies on must fire on their positive fixture twins"""
+    from rules import fixture_check as FX
+    FX.term(cx)
+    FX.insert(cx)
